@@ -7,7 +7,8 @@ from gen_ep import EpSim, DEFAULT_EP
 from gen_hc import Net
 
 PROP = "C09"
-LAKE_TARGETS = ["Uflow.Props.C09", "uflow_driver"]
+LAKE_TARGETS = ["Uflow.Props.C09", "Uflow.Props.C09Hc", "uflow_driver"]
+PROPS_FILES = ["C09", "C09Hc"]
 TRUSTED_BASE = c08.TRUSTED_BASE
 ASSUMPTIONS = ["default active_timeout (20 s) on both sides, so that the passive side's terminal event also falls inside the 22 s budget",
                "'eventually flushes' (the liveness part of disconnect()) is C02's subject; here: ordering and the retry budget"]
@@ -22,6 +23,8 @@ def scenario(r, it, tier, k, force=None):
     sim = EpSim(r, inter=it)
     sim.srv(8, 8, r.pick([0, 1]), dict(DEFAULT_EP))
     lat = r.pick([0, 5_000_000, 40_000_000])
+    if (not force) and k % 4 == 2 and lat == 0:
+        lat = 40_000_000      # crossing requests: with no latency the side that steps second hears the request before it sends its own
     clean = {"c2s": Net(latency=lat), "s2c": Net(latency=lat)}
     lossy = {"c2s": Net(loss=r.pick([0, 100, 300]), dup=r.pick([0, 200]), latency=lat, jitter=r.pick([0, 20_000_000]), reorder=r.pick([0, 200])),
              "s2c": Net(loss=r.pick([0, 100, 300]), dup=r.pick([0, 200]), latency=lat, reorder=r.pick([0, 200]))}
@@ -46,7 +49,10 @@ def scenario(r, it, tier, k, force=None):
         if r.chance(1, 6):
             sim.send("c" if caller == "s" else "s", 0, 0, 3, 50)
     sim.run(r.range(5, 60), dt, lossy, traffic)
+    crossing = (not force) and k % 4 == 2        # both sides ask for the disconnect before either has heard of the other's request
     style = r.pick(["busy", "quiet", "quiet"]) if not force else "quiet"
+    if crossing and k % 8 == 2:
+        style = "quiet"                          # every other crossing case: nothing in flight, both requests go out in the same step
     if style == "quiet":
         # let everything be acknowledged first, so that the last packet is the only thing in flight
         sim.run(r.range(30, 80), max(dt, 20_000_000), clean)
@@ -58,7 +64,6 @@ def scenario(r, it, tier, k, force=None):
         for _ in range(r.range(0, 2)):
             sim.send(caller, 0, r.below(3), 3, r.pick([0, 0, 1, 700, 3000]))
     sim.call(caller + mode_call, 0)
-    crossing = (not force) and k % 4 == 2        # both sides ask for the disconnect before either has heard of the other's request
     if crossing or r.chance(1, 5):      # the peer disconnects too
         sim.call(("s" if caller == "c" else "c") + r.pick(["disc", "discnow"]), 0)
     # the frames emitted right after the call are lost
